@@ -211,7 +211,8 @@ func (pnf *PageNumberFinder) getPageInfoAndText(link *html.Node, pageURL *nurl.U
 	var hrefURL *nurl.URL
 	if !isEmptyHref && !isJavascriptLink {
 		hrefURL, err = nurl.ParseRequestURI(linkHref)
-		if err != nil || hrefURL.Host != pageURL.Host ||
+		// (host names are compared ignoring the letter case)
+		if err != nil || !strings.EqualFold(hrefURL.Host, pageURL.Host) ||
 			(hrefURL.Scheme != "http" && hrefURL.Scheme != "https") {
 			return nil, ""
 		}
